@@ -1,9 +1,15 @@
 package main
 
 import (
+	"bufio"
+	"bytes"
 	"fmt"
 	"os"
+	"regexp"
+	"strconv"
 )
+
+var c18flen = regexp.MustCompile(`flen=(\d+)`)
 
 // c18: MaxSize. Histories that keep growing the data under random limits (not aligned to anything), initial map
 // sizes, allocation chunk sizes and page sizes; after a refused transaction: smaller writes, deletes, reopen.
@@ -65,6 +71,49 @@ func c18Main(args []string) error {
 			}
 		}
 		L = append(L, "beginr 901", "dump r901", "check r901", "endr 901", "close")
+		if id%2 == 1 {
+			// boundary limits: the same history is first run without a limit to learn the sizes the file steps through;
+			// the limit is then set a few bytes below one of those steps (not aligned to anything)
+			o2 := o
+			o2.max = 0
+			if o2.asz == 0 || o2.asz > 1<<16 {
+				o2.asz = []int{o.ps * 4, 1 << 16}[cr.intn(2)] // small growth steps, else power-of-two rounding hides the boundary
+			}
+			o2.imm = 0
+			var buf bytes.Buffer
+			bw := bufio.NewWriter(&buf)
+			L2 := append([]string{"open " + o2.String()}, L[1:]...)
+			for i, l := range L2 {
+				if i > 0 && len(l) > 5 && l[:5] == "open " {
+					L2[i] = "open " + o2.String()
+				}
+			}
+			runHistory(bw, *dir, 990000+id, "probe", L2, "+io")
+			bw.Flush()
+			seen := map[int]bool{}
+			var steps []int
+			for _, m := range c18flen.FindAllStringSubmatch(buf.String(), -1) {
+				n, _ := strconv.Atoi(m[1])
+				if n > 0 && !seen[n] {
+					seen[n] = true
+					steps = append(steps, n)
+				}
+			}
+			if os.Getenv("C18DBG") != "" {
+				fmt.Fprintln(os.Stderr, "probe", id, len(buf.String()), steps)
+			}
+			if len(steps) > 2 {
+				st := steps[1+cr.intn(len(steps)-1)]
+				o2.max = st - []int{1, 7, o.ps - 1, o.ps, o.ps + 1, 2*o.ps - 1}[cr.intn(6)]
+				for i, l := range L2 {
+					if len(l) > 5 && l[:5] == "open " {
+						L2[i] = "open " + o2.String()
+					}
+				}
+				runHistory(w, *dir, id, fmt.Sprintf("seed=%d boundary=%d", cr.s, st), L2, "commit+io")
+				continue
+			}
+		}
 		runHistory(w, *dir, id, fmt.Sprintf("seed=%d", cr.s), L, "commit+io")
 	}
 	return nil
